@@ -306,7 +306,7 @@ func goStoreOrder(o order.Order) (rec *c10OrderRec, err error, panicked bool) {
 	}
 	rec.base = append([]byte{}, w.Bytes()...)
 	var t bytes.Buffer
-	if err = clientdb.VerifSerializeOrderTlvData(&t, o); err != nil {
+	if err = clientdb.VerifC10SerializeOrderTlvData(&t, o); err != nil {
 		return
 	}
 	rec.tlv = append([]byte{}, t.Bytes()...)
@@ -402,7 +402,7 @@ func (c *c10Run) orderDB(n int) {
 					key, c10Case{Kind: "order", Order: shadow[k]})
 			}
 			if k == written {
-				base, mu, tlvB, tier, ok := db.VerifRawOrder(order.Nonce(arr32(k)))
+				base, mu, tlvB, tier, ok := db.VerifC10RawOrder(order.Nonce(arr32(k)))
 				if !ok {
 					continue
 				}
@@ -497,7 +497,6 @@ func beU32(v uint32) []byte {
 func (c *c10Run) orderMalformed() {
 	r := c.r
 	spec := c.g.orderSpec(r.Rng.Intn(2) == 0)
-	spec.Ticket = "" // the ticket codec is outside the model
 	o := spec.build()
 	rec, err, p := goStoreOrder(o)
 	if err != nil || p {
@@ -525,7 +524,7 @@ func (c *c10Run) orderMalformed() {
 		r.Count("malformed/order-tlv-huge-length")
 	}
 	if spec.Bid && hasTicketType(raw) {
-		return
+		r.Count("malformed/order-tlv-with-ticket")
 	}
 	kind := "ask"
 	if spec.Bid {
@@ -594,7 +593,7 @@ func goDeOrderTlv(bid bool, raw []byte) (exp string) {
 	} else {
 		o = &order.Ask{Kit: *kit}
 	}
-	if err := clientdb.VerifDeserializeOrderTlvData(bytes.NewReader(raw), o); err != nil {
+	if err := clientdb.VerifC10DeserializeOrderTlvData(bytes.NewReader(raw), o); err != nil {
 		return "err"
 	}
 	return "ok " + renderOrder(o)
